@@ -19,6 +19,8 @@ THEOREMS = [
     "C05_no_evidence",
     "C05_limit_prior",
     "C05_limit_data",
+    "C05_map_means_monotone",
+    "C05_map_means_monotone_iter",
 ]
 CORR_OPS = ["gmm_mstep_map:weights", "gmm_mstep_map:means", "gmm_mstep_map:variances", "gmm_mstep_map:fit2"]
 RULE = ("prior model x adaptation statistics (real data or synthetic, with starved components n_c = 0 and 0 < n_c < thr) x relevance "
@@ -38,14 +40,14 @@ def scenario(ctx, i):
     reyn = i % 5 != 4
     rel = float(10 ** r.uniform(-6, 6)) if i % 3 else float(10 ** r.uniform(-1, 1.5))
     alpha = float(r.choice([0.0, 1.0, r.random()]))
-    thr = gen.EPS if i % 4 else float(10 ** r.uniform(-2, 0))
+    thr = gen.EPS if r.random() < 0.4 else float(10 ** r.uniform(-2, 0))  # drawn, not derived from i: no parity clash with the other choices
     x = gen.sample_data(r, w, m + r.normal(size=m.shape) * np.sqrt(v), v * 0.5, N)
     synth = i % 3 == 1
     st = None
     if synth:
         nn = r.uniform(0, 4, C) * (r.random(C) > 0.3)
-        if i % 6 == 1:
-            nn[int(r.integers(0, C))] = thr * 0.5
+        if r.random() < 0.5:  # a component with some evidence, but less than the update threshold
+            nn[int(r.integers(0, C))] = thr * float(r.uniform(0.1, 0.9))
         mean = m + r.normal(size=(C, D)) * np.sqrt(v)
         var = v * r.uniform(0.2, 2, (C, D))
         st = dict(n=nn, px=mean * nn[:, None], pxx=(var + mean**2) * nn[:, None], t=int(max(1, round(nn.sum()))), ll=-1.0)
@@ -229,9 +231,45 @@ def oracle_limits(sc):
     return out
 
 
+def oracle_penalised(sc, iters=5):
+    """means-only relevance adaptation: sum_i log p(x_i) - (r/2) sum_cd (mu - mu0)^2 / var never decreases along EM"""
+    from props.c01 import reference_ll
+    from bob.learn.em import gmm as gmod
+
+    s = dict(sc, reynolds=True, um=True, uv=False, uw=False, st=None, thr=min(sc["thr"], 1e-12))
+    ubm, g = mk_map(s, max_fitting_steps=1, convergence_threshold=None)
+    x = np.asarray(s["x"], dtype=float)
+    m0 = np.asarray(ubm.means, float)
+
+    def J():
+        w, m, v = (np.asarray(a, float) for a in (g.weights, g.means, g.variances))
+        return float(reference_ll(w, m, v, x)[0].sum() - 0.5 * s["r"] * np.sum((m - m0) ** 2 / v))
+
+    traj = [J()]
+    for _ in range(iters):
+        r = core.impl(lambda: gmod.m_step([g.acc_stats(x)], g))
+        if isinstance(r, core.ImplError):
+            return {"sig": "map-m-step-raises", "what": repr(r)}
+        traj.append(J())
+    for a, b in zip(traj, traj[1:]):
+        if not np.isfinite(b) or b < a - 1e-9 * (1 + abs(a)):
+            return {"sig": "map-penalised-likelihood-decreases", "what": f"relevance {s['r']}: penalised likelihood along means-only MAP EM: {traj}"}
+    return None
+
+
 def search(ctx):
     fails = []
     seen = set()
+    for i in range(ctx.budget(12, 120)):
+        sc = scenario(ctx, i)
+        ctx.count("search:penalised")
+        ctx.case(["p", core.tolist(sc["m"]), sc["r"]], nontrivial=True)
+        f = oracle_penalised(sc)
+        if f and f["sig"] not in seen:
+            seen.add(f["sig"])
+            f["input"] = {k: sc[k] for k in ("C", "D", "w", "m", "v", "x", "um", "uv", "uw", "reynolds", "r", "alpha", "thr", "st", "cur", "floor")}
+            f["oracle"] = "penalised"
+            fails.append(f)
     for i in range(ctx.budget(64, 640)):
         sc = scenario(ctx, i)
         ctx.count("search:blend")
@@ -252,4 +290,6 @@ def replay(d):
     for grp in ("st", "cur"):
         if sc.get(grp):
             sc[grp] = {k: (np.asarray(v, dtype=float) if isinstance(v, list) else v) for k, v in sc[grp].items()}
+    if d.get("oracle") == "penalised":
+        return oracle_penalised(sc)
     return oracle_limits(sc) if d.get("oracle") == "limits" else oracle(sc)
